@@ -499,6 +499,12 @@ class Group:
             topics = req.topics
         out = []
         got = []
+        if inj is not None and inj[1] is None and v >= 2:
+            # an error injected for the whole request is a group-level error: v2+ reports it in the top-level
+            # field only, with no partition entries (as a real broker does)
+            self._ev("fetch_offsets", None, inj[0])
+            self.cluster.reply(rq, topics=[], error_code=inj[0])
+            return
         for topic, parts in topics:
             po = []
             for partition in parts:
